@@ -453,6 +453,66 @@ func propC11(c *Ctx) {
 		}
 	}
 
+	// the topic position is looked up BY NAME (first match): two inputs with the same name – two unnamed
+	// ones included – would make the second read the first one's topic.  Validation rejects duplicates
+	// for every top-level input, without a per-input way around the test.
+	{
+		vcr := w.Fn("shovel/config", "ValidateColRefs")
+		vreg := NewRegion(vcr)
+		var tests []ssa.Instruction
+		vreg.AllInstrs(func(in ssa.Instruction) {
+			var key ssa.Value
+			switch x := in.(type) {
+			case *ssa.Lookup:
+				if _, isMap := x.X.Type().Underlying().(*types.Map); isMap {
+					key = x.Index
+				}
+			case *ssa.Call:
+				// a set type's has(name) / slices.Contains(names, name)
+				if isBoolType(x.Type()) {
+					for _, a := range x.Call.Args {
+						if strings.HasSuffix(sym(vreg.Resolve(a)), ".Event.Inputs[*].Name") {
+							key = a
+						}
+					}
+				}
+			}
+			if key != nil && strings.HasSuffix(sym(vreg.Resolve(key)), ".Event.Inputs[*].Name") {
+				tests = append(tests, in)
+			}
+		})
+		if len(tests) == 0 {
+			c.Violation("R11.7", "ValidateColRefs/duplicate-input-names-rejected", vcr.Pos(), "no membership test keyed by the name of each event input: duplicate (or several unnamed) inputs are accepted and topic positions resolve to the first of them")
+		}
+		for i, t := range tests {
+			every, found := passesEveryIteration(t)
+			rejects := false
+			if v, isV := t.(ssa.Value); isV {
+				var tr []Edge
+				if lk, isLk := t.(*ssa.Lookup); isLk && lk.CommaOk {
+					for _, ref := range *lk.Referrers() {
+						if e, isE := ref.(*ssa.Extract); isE && e.Index == 1 {
+							a, _ := boolEdges(e)
+							tr = append(tr, a...)
+						}
+					}
+				} else {
+					tr, _ = boolEdges(v)
+				}
+				for _, e := range tr {
+					if ret, isRet := terminator(e.To).(*ssa.Return); isRet {
+						vals := returnValues(ret)
+						if len(vals) > 0 && !isNilConst(vals[len(vals)-1]) {
+							rejects = true
+						}
+					}
+				}
+			}
+			c.Check("R11.7", fmt.Sprintf("ValidateColRefs/duplicate-input-names-rejected#%d", i+1), instrPos(t), found && every && rejects,
+				fmt.Sprintf("the duplicate-name test runs for every input of the event (%v) and a duplicate is an error (%v)", found && every, rejects))
+		}
+	}
+
 	// ---- R11.8 ----------------------------------------------------------
 	c.Rule("R11.8", "the row builder's context never points at a loop variable that all iterations share", 1)
 	{
